@@ -630,6 +630,9 @@ func (in *interp) body(b *BodySpec) {
 func (in *interp) http(s *Service, m *Method) {
 	h := m.HTTP
 	dsl.HTTP(func() {
+		if m.SkipRequestBody {
+			dsl.SkipRequestBodyEncodeDecode()
+		}
 		verb := map[string]func(string) *expr.RouteExpr{
 			"GET": dsl.GET, "POST": dsl.POST, "PUT": dsl.PUT, "DELETE": dsl.DELETE, "PATCH": dsl.PATCH,
 			"HEAD": dsl.HEAD, "OPTIONS": dsl.OPTIONS,
